@@ -516,6 +516,24 @@ def F52(fil):
     return out[0] != "exc" or "ValueError" not in str(out[1]), f"subband(nsub=3) on a {fil.header.nchans}-channel file -> {str(out)[:120]}"
 
 
+def F53(fil):
+    from sigpyproc.fourierseries import FourierSeries
+    from sigpyproc.header import Header
+    from sigpyproc.timeseries import TimeSeries
+    bad = []
+    for n in (8, 64, 100, 1000):
+        x = np.random.default_rng(n).normal(size=n).astype(np.float32)
+        hdr = Header(filename="x.tim", data_type="time series", nchans=1, foff=1.0, fch1=1400.0, nbits=32, tsamp=1e-3, tstart=58000.0, nsamples=n)
+        fs = TimeSeries(x, hdr).rfft()
+        big = fs.header.nsamples
+        back = FourierSeries.from_spec(fs.to_spec(f"f53_{n}")).ifft().data
+        exp = np.zeros(big, dtype=np.float32)
+        exp[:n] = x
+        if big % 2 == 0 and (back.size != big or not np.allclose(back, exp, atol=1e-4)):
+            bad.append((n, big, back.size))
+    return bool(bad), f"rfft -> to_spec -> from_spec -> ifft (n, transform length, returned length): {bad}"
+
+
 ALL = {k: v for k, v in globals().items() if k.startswith("F") and k[1:].isdigit()}
 
 
